@@ -238,4 +238,18 @@ REG = {
          "by Trace_Geometry, which also demands that every axis class was exercised and every result is finite.",
     note="Exact on the rational lattice; elsewhere residual bounds of 16-64 eps for rotations and 1e-12 (norm, polar cosine) / 1e-11 (handedness) for spherical coordinates.",
     technique="exact-rational TLA+ model of Rodrigues rotations (TLC exhaustive on Pythagorean angles x axes), replay of the exact matrices, trace validation of recorded geometric relations per axis class"),
+ "C17": dict(
+    engine="spec/Scalars.tla, MC_Scalars.tla (3 cfgs), Trace_Scalars.tla, Rat.tla; harness/c17.cpp",
+    design_ref="DESIGN.md §4.17",
+    text="Scalars.tla holds the integer/rational part: half-up rounding of decimal mantissas to d digits (TLC: d significant digits, within half a unit, idempotent), decision "
+         "tables of Sign, StepFunction, Sign(x,y), Relative_Difference and Floats_Equal on ten value classes (both zeros, tiny, huge, both signs; reflexive and symmetric), and the "
+         "coefficient tables of the vector spherical harmonics derived from the ladder identities of cos(theta) Y_lm and sin(theta) exp(+-i phi) Y_lm (phase in {1,-1,i,-i} and a "
+         "rational square; Psi = -l x the l+1 part, (l+1) x the l-1 part), for which TLC checks the completeness law sum |coef|^2 = 1 for every l<=12, |m|<=l. Every exported case is "
+         "replayed: Round on m x 10^e over 600 decades and both signs (2 ulp, odd), the decision tables, every VSH_Y/Psi_Component (phase exactly, square to rounding). Recorded "
+         "identities for EVERY (l,m), l<=12 (Trace_Scalars requires them in order) on poles, equator, axes and random directions: Y_{l,-m} = (-1)^m conj Y_lm, vector Y = rhat Y_lm, "
+         "rhat.Psi = 0, Psi = r grad Y_lm by central differences; relations on random arguments for Round (half unit, idempotent, odd, monotone), Dawson (2e-7 against its defining "
+         "integral, odd, both sides of |x|=0.2), Erfi (1e-6 relative), Inv_Erf (erf(x-1e-4) <= p <= erf(x+1e-4) up to 1-1e-12), Floats_Equal / Relative_Difference / Sign.",
+    note="Dawson/Erfi are referred to a long-double quadrature of the defining integral (trusted harness code), Inv_Erf to libm erf. Ties of Round are excluded from the decimal replay. "
+         "Erfi is checked for |x| < 26 (beyond, the value overflows).",
+    technique="integer/rational TLA+ specification of Round, the comparison helpers and the VSH coefficient tables (TLC exhaustive with a completeness law), replay of exported cases, trace validation of harmonic identities for every (l,m) and of recorded relations"),
 }
